@@ -19,6 +19,7 @@ fn src_of(scene: &Scene) -> Option<(Xf, SrcSpec, f32)> {
             Op::SetTransform(t) => ctm = *t,
             Op::Fill(_, s, o) => return Some((ctm, s.clone(), o.alpha)),
             Op::Mask(_, _, _, _, _, s) => return Some((ctm, s.clone(), 1.0)),
+            Op::Text(_, _, _, _, s, o) => return Some((ctm, s.clone(), o.alpha)),
             _ => {}
         }
     }
@@ -74,12 +75,12 @@ pub fn eval(scene: &Scene) -> Result<(u64, u64, u64), Violation> {
                 let s = Scene { w, h, dst: Dst::Zero, ops: vec![Op::SetTransform(cx), Op::Fill(path.clone(), SrcSpec::Solid(0xffffffff), Opts::default())] };
                 clip_cov = Some(render(&s).map_err(|p| Violation::new("model/reference-render-panicked", case.clone(), p))?);
             }
-            Op::Fill(..) | Op::Mask(..) => break,
+            Op::Fill(..) | Op::Mask(..) | Op::Text(..) => break,
             _ => {}
         }
     }
     // clip rectangles and layer bounds in force at the draw
-    let at = scene.ops.iter().position(|o| matches!(o, Op::Fill(..) | Op::Mask(..))).unwrap_or(0);
+    let at = scene.ops.iter().position(|o| matches!(o, Op::Fill(..) | Op::Mask(..) | Op::Text(..))).unwrap_or(0);
     // a shape that does not cover the surface: like a clip path, only the pixels it covers fully
     // show the gradient and the pixels it does not cover keep the destination
     if let Some(Op::Fill(path, _, o)) = scene.ops.get(at) {
@@ -101,6 +102,16 @@ pub fn eval(scene: &Scene) -> Result<(u64, u64, u64), Violation> {
             }
         }
         clip_cov = Some(cc);
+    }
+    // a text run: the glyph coverage is what an opaque-white draw of the same run leaves in the alpha
+    // channel; fully covered glyph pixels show the gradient colour of their own position
+    if let Some(Op::Text(size, text, tx, ty, _, o)) = scene.ops.get(at) {
+        let s = Scene { w, h, dst: Dst::Zero, ops: vec![Op::SetTransform(cx), Op::Text(*size, text.clone(), *tx, *ty, SrcSpec::Solid(0xffffffff), Opts { mode: BlendMode::SrcOver, alpha: 1.0, aa: o.aa })] };
+        let sc = render(&s).map_err(|p| Violation::new("model/reference-render-panicked", case.clone(), p))?;
+        clip_cov = Some(match clip_cov.take() {
+            None => sc,
+            Some(cc) => cc.iter().zip(sc.iter()).map(|(a, b)| if a >> 24 == 0 || b >> 24 == 0 { 0 } else if a >> 24 == 255 && b >> 24 == 255 { 0xff000000 } else { 0x80000000 }).collect(),
+        });
     }
     for y in 0..h {
         for x in 0..w {
@@ -419,6 +430,75 @@ impl Check for C12 {
                                     }
                                 }
                                 Err(v) => run.report(25_000 + s, v),
+                            }
+                        }
+                    }
+                }
+            });
+        }
+        // user units of 1/4096 and 1/1000 pixel (determinants down to 6e-8): the same device geometry
+        // from gradients given in the huge user coordinates; only a non-invertible transform draws
+        // nothing (linear and radial: the others leave the 16.16 range of the gradient matrix there)
+        {
+            let tg: Vec<(&'static str, Vec<f32>)> = vec![("linear", vec![2.5, 3.25, 20.0, 4.0]), ("linear", vec![6.0, 21.5, 2.5, 3.25]), ("radial", vec![12.0, 12.0, 16.0]), ("radial", vec![2.5, 3.25, 4.0])];
+            run.bound("tiny determinants", format!("{} linear / radial geometries given in user units of 1/k pixel under scale 1/k, k in {{4096, 1000, 300}} x 3 spreads x 2 alphas x Src / SrcOver", tg.len()));
+            run.par(tg.len() * 3, |s, l| {
+                let (kind, p) = &tg[s / 3];
+                let k = [4096.0f32, 1000.0, 300.0][s % 3];
+                let pk: Vec<f32> = p.iter().map(|v| v * k).collect();
+                for spread in [Spr::Pad, Spr::Repeat, Spr::Reflect] {
+                    for alpha in [1.0f32, 0.5] {
+                        for over in [false, true] {
+                            let src = make(kind, &pk, stops[1].clone(), spread);
+                            let ops = vec![Op::SetTransform([1.0 / k, 0., 0., 1.0 / k, 0., 0.]), Op::Fill(PathSpec::rect(-200.0 * k, -200.0 * k, 400.0 * k, 400.0 * k), src, Opts { mode: if over { BlendMode::SrcOver } else { BlendMode::Src }, alpha, aa: true })];
+                            let scene = Scene { w: S, h: S, dst: if over { Dst::Zero } else { Dst::White }, ops };
+                            l.states += 1;
+                            l.transitions += 2;
+                            l.traces += 1;
+                            l.evals += 1;
+                            match eval(&scene) {
+                                Ok((hsh, n, sk)) => {
+                                    l.outcome(hsh);
+                                    l.count("pixels_asserted", n);
+                                    l.count("pixels_not_asserted_discontinuity", sk);
+                                    if n >= 100 {
+                                        l.nontrivial += 1;
+                                    }
+                                }
+                                Err(v) => run.report(26_000 + s, v),
+                            }
+                        }
+                    }
+                }
+            });
+        }
+        // gradient-filled text: draw_text takes a user-space source like any other drawing call
+        if font_available() {
+            let txs: Vec<Xf> = vec![IDENT, [1., 0., 0., 1., 3., -2.], [1., 0., 0., 1., 0.5, 0.25], [1.25, 0., 0., 1.25, -2., 4.], [0.9659258, 0.25881905, -0.25881905, 0.9659258, 4., -3.]];
+            run.bound("gradient-filled text", format!("{} geometries x {} transforms x 2 spreads x 2 alphas x 2 runs of large glyphs (test font): every fully covered glyph pixel shows the gradient colour of its own position", ctx_geos.len(), txs.len()));
+            run.par(ctx_geos.len() * txs.len(), |s, l| {
+                let (kind, p) = &ctx_geos[s / txs.len()];
+                let c = txs[s % txs.len()];
+                for spread in [Spr::Pad, Spr::Reflect] {
+                    for alpha in [1.0f32, 0.5] {
+                        for (text, size, x, y) in [("I", 70.0f32, 7.0f32, 23.0f32), ("L.", 44.0, 1.0, 21.0)] {
+                            let src = make(kind, p, stops[0].clone(), spread);
+                            let scene = Scene { w: S, h: S, dst: Dst::Zero, ops: vec![Op::SetTransform(c), Op::Text(size, text.to_string(), x, y, src, Opts { mode: BlendMode::SrcOver, alpha, aa: true })] };
+                            l.states += 1;
+                            l.transitions += 2;
+                            l.traces += 1;
+                            l.evals += 1;
+                            match eval(&scene) {
+                                Ok((hsh, n, sk)) => {
+                                    l.outcome(hsh);
+                                    l.count("pixels_asserted", n);
+                                    l.count("text_pixels_asserted", n);
+                                    l.count("pixels_not_asserted_discontinuity", sk);
+                                    if n >= 100 {
+                                        l.nontrivial += 1;
+                                    }
+                                }
+                                Err(v) => run.report(27_000 + s, v),
                             }
                         }
                     }
